@@ -30,7 +30,10 @@ using vf::fmt;
 typedef std::vector<std::pair<int, std::string>> Props;  // (attribute, value as C string), sorted
 
 struct MPoly { int layer = 0, type = 0; Props props; Poly pts; bool big = false; };
-struct MPath { int layer = 0, type = 0; Props props; Poly pts; int64_t width = 0; bool scale_width = true; int end = 0; int64_t ext0 = 0, ext1 = 0; bool collinear_ok = false; };
+// optional[i] (source model only): spine vertex i is closer to its predecessor than the path's own tolerance
+// (strictly); gdstk documents that such points are merged into the earlier one, so the centre line with or
+// without vertex i is admissible.  Vertices exactly the tolerance apart, or further, must survive.
+struct MPath { std::vector<char> optional; int layer = 0, type = 0; Props props; Poly pts; int64_t width = 0; bool scale_width = true; int end = 0; int64_t ext0 = 0, ext1 = 0; bool collinear_ok = false; };
 struct MLabel { int layer = 0, type = 0; Props props; std::string text; P pos{0, 0}; int anchor = 0; double rot = 0, mag = 1; bool refl = false; };
 struct MRef {
     std::string target; Props props; double rot = 0, mag = 1; bool refl = false;
@@ -181,12 +184,23 @@ void add_cell(const Cell& cell, MLib& lib, Ctx& ctx, GridFn grid, bool source) {
             std::vector<LP> centre;
             for (uint64_t k = 0; k < fp.spine.point_array.count; k++) centre.push_back({fp.spine.point_array[k].x, fp.spine.point_array[k].y});
             centre = offset_polyline(centre, eo);
+            std::vector<char> optional;
+            if (source && eo == 0) {
+                bool any = false;
+                optional.assign(centre.size(), 0);
+                for (size_t k = 1; k < centre.size(); k++) {
+                    long double dx = centre[k].first - centre[k - 1].first, dy = centre[k].second - centre[k - 1].second;
+                    if (dx * dx + dy * dy < (long double)fp.spine.tolerance * fp.spine.tolerance) { optional[k] = 1; any = true; }
+                }
+                if (!any) optional.clear();
+            }
             for (auto& o : dump::own_offsets(fp.repetition)) {
                 MPath m;
                 m.layer = (int)get_layer(el.tag);
                 m.type = (int)get_type(el.tag);
                 m.props = props_of(fp.properties);
                 for (auto& c : centre) m.pts.push_back(P{grid((double)c.first + o.x, ctx), grid((double)c.second + o.y, ctx)});
+                m.optional = optional;
                 m.width = el.half_width_and_offset.count ? grid(2 * el.half_width_and_offset[0].x, ctx) : 0;
                 m.scale_width = fp.scale_width;
                 m.end = end_code(el.end_type);
@@ -438,6 +452,19 @@ inline std::vector<std::string> attrs(const MPath& e, const MPath& g) {
     auto dedup = [](const Poly& p) { Poly r; for (auto& v : p) if (r.empty() || r.back() != v) r.push_back(v); return r; };
     Poly ep = dedup(e.pts), gp = dedup(g.pts);
     bool same = ep == gp || (e.collinear_ok && follows_polyline(ep, gp));
+    if (!same && !e.optional.empty() && e.optional.size() == e.pts.size()) {
+        std::vector<size_t> idx;
+        for (size_t k = 0; k < e.optional.size(); k++) if (e.optional[k]) idx.push_back(k);
+        for (uint64_t mask = 1; mask < (1ull << std::min<size_t>(idx.size(), 8)) && !same; mask++) {
+            Poly r;
+            for (size_t k = 0; k < e.pts.size(); k++) {
+                bool drop = false;
+                for (size_t b = 0; b < idx.size() && b < 8; b++) if (idx[b] == k && (mask >> b & 1)) drop = true;
+                if (!drop) r.push_back(e.pts[k]);
+            }
+            same = dedup(r) == gp;
+        }
+    }
     if (!same) d.push_back("centre_line");
     if (e.width != g.width) d.push_back("width");
     if (e.scale_width != g.scale_width) d.push_back("scale_width");
